@@ -39,7 +39,9 @@ pub enum SetOp {
     Extend2(u8),
     Clear,
     Reserve(Res),
+    TryReserveOne,
     ShrinkToFit,
+    ShrinkToLen,
     Retain(Ret),
 }
 
@@ -362,6 +364,17 @@ impl SetHarness {
                 s.set.reserve(add);
                 chk!(c, s.set.capacity() >= len + add, "reserve({add}) left capacity {}", s.set.capacity());
             }
+            SetOp::TryReserveOne => {
+                let len = s.set.len();
+                let add = s.set.capacity() - len + 1;
+                let r = s.set.try_reserve(add);
+                chk!(c, r.is_ok() && s.set.capacity() >= len + add, "set.try_reserve({add}) = {:?}, capacity {}", r, s.set.capacity());
+            }
+            SetOp::ShrinkToLen => {
+                let len = s.set.len();
+                s.set.shrink_to(len);
+                chk!(c, s.set.capacity() >= len, "set.shrink_to(len) left capacity {} < len {len}", s.set.capacity());
+            }
             SetOp::ShrinkToFit => s.set.shrink_to_fit(),
             SetOp::Retain(kind) => {
                 let mut seen = Vec::new();
@@ -454,6 +467,10 @@ impl Harness for SetHarness {
         }
         v.push(SetOp::ShrinkToFit);
         if self.cfg.full_alphabet {
+            if nb < self.cfg.max_buckets {
+                v.push(SetOp::TryReserveOne);
+            }
+            v.push(SetOp::ShrinkToLen);
             for k in [Ret::All, Ret::None, Ret::EvenIds, Ret::Alternate] {
                 v.push(SetOp::Retain(k));
             }
